@@ -18,7 +18,7 @@ type Stream struct {
 	log      []uint32 // everything handed out (both modes)
 	s0, s1   uint64   // xoroshiro128+ state
 	maxDraws int
-	over     bool // more than maxDraws draws: everything returns 0 from then on
+	over     bool     // more than maxDraws draws: everything returns 0 from then on
 	sink     *os.File // optional: every draw is written unbuffered (crash attribution re-runs)
 }
 
